@@ -287,6 +287,19 @@ func owSeqScenario(p owParams) func() {
 		settle()
 		c2 := mk()
 		w.Start(c2)
+		if p.state == "reset-during-second" || p.state == "restart-during-second" {
+			// the fault strikes at an instant of the explorer's choosing while the second call is under way
+			mc.GoLow("fault", func() {
+				for id := 1; id <= n; id++ {
+					if p.state == "reset-during-second" {
+						w.FW.Reset(world.Addr(id))
+					} else {
+						w.FW.Crash(world.Addr(id))
+						w.FW.Restart(world.Addr(id))
+					}
+				}
+			})
+		}
 		settle()
 		for i, c := range []*world.Call{c1, c2} {
 			for id := 1; id <= n; id++ {
@@ -294,7 +307,7 @@ func owSeqScenario(p owParams) func() {
 				if e > 1 {
 					fail("C06/delivery-count", key, "%s: node %d handled one-way call %d %d times", name, id, i+1, e)
 				}
-				if e == 0 && c.Returned && c.Err == nil && (i == 0 || !p.nsw) {
+				if e == 0 && c.Returned && c.Err == nil && (i == 0 || !p.nsw) && !(i == 1 && strings.HasSuffix(p.state, "-during-second")) {
 					fail("C06/delivery-count", key, "%s: node %d is reachable, call %d returned without error, but its message was never handled", name, id, i+1)
 				}
 			}
@@ -348,7 +361,7 @@ func c06Instances(tier string) []Instance {
 	}
 	for _, kind := range []string{"Unicast", "Multicast", "MulticastPerNodeArg"} {
 		for _, nsw := range []bool{false, true} {
-			for _, st := range []string{"then-nothing", "then-reset", "then-restart"} {
+			for _, st := range []string{"then-nothing", "then-reset", "then-restart", "reset-during-second", "restart-during-second"} {
 				p := owParams{kind: kind, nsw: nsw, state: st}
 				b := 1
 				if thorough(tier) {
@@ -363,7 +376,7 @@ func c06Instances(tier string) []Instance {
 
 func init() {
 	register(&Check{ID: "C06",
-		Rule:        "(a) n in 1..3 x every skip subset of the per-node function (node-distinct payloads) x 9 call variants that take one + 6 plain variants x threshold {targeted, targeted+1}: each server's received payload, delivery count and the call's completion / counts are compared with f(request, i); (b) unicast / multicast variants x send-waiting on/off x node state {idle, handlers blocked forever, endpoints down, transport window full with earlier messages}: the call must have returned at the first quiescent point without any handler returning (and, with no-send-waiting, without the connection); (c) two one-way calls with {nothing, a stream reset, a crash and restart of every node} while the client is idle in between, back-off timers fired to a horizon of 4 rounds: every message is handled at most once, and exactly once when the call reported no error; all schedules within the deviation bound; an outcome is (instance, returned, deliveries)",
+		Rule:        "(a) n in 1..3 x every skip subset of the per-node function (node-distinct payloads) x 9 call variants that take one + 6 plain variants x threshold {targeted, targeted+1}: each server's received payload, delivery count and the call's completion / counts are compared with f(request, i); (b) unicast / multicast variants x send-waiting on/off x node state {idle, handlers blocked forever, endpoints down, transport window full with earlier messages}: the call must have returned at the first quiescent point without any handler returning (and, with no-send-waiting, without the connection); (c) two one-way calls with {nothing, a stream reset, a crash and restart of every node} while the client is idle in between - or striking as an adversary thread during the second call -, back-off timers fired to a horizon of 4 rounds: every message is handled at most once, and exactly once when the call reported no error; all schedules within the deviation bound; an outcome is (instance, returned, deliveries)",
 		Gen:         c06Instances,
 		Assumptions: []string{"'without waiting' is decided untimed: at quiescence, before any gate is opened or timer fired", "transport is the fakegrpc model with window 1 for the one-way family"},
 	})
